@@ -47,6 +47,10 @@ func runC08(c *Ctx) {
 	// ---- R10 defaults are per request
 	c.rule("C08-R10", "def-use: a value put into a request's input by ApplyTypeDefaults is evaluated for that request (see C07-R11): an array/object default kept from an earlier request is one Go map/slice shared by concurrent requests - in-place edits leak between them, and two requests writing it at once is a fatal 'concurrent map writes'")
 	freshDefaultsRule(c, "C08-R10")
+	// ---- R11 long-lived tables are keyed by what their entries were built from
+	c.rule("C08-R11", "MEMO (whole module): no object built from a string parameter is kept in a long-lived map (held in a struct field) under a key that is a lossy image of that parameter (case folding, trimming, a base name) while the object keeps the parameter as given: a later request that differs only in what the key discards is handed the object built for an earlier one")
+	c.Sites["C08-R11#table-stores-examined"] = memoKeyAudit(c, "C08-R11", c.modulePkgs(), "")
+	c.ob("C08-R11", "module#table-stores-examined", token.NoPos, c.Sites["C08-R11#table-stores-examined"] >= 10, "fewer than 10 stores into long-lived string-keyed tables found in the module")
 	// ---- R1 shared write-set
 	c.rule("C08-R1", "WRS: no function of pkg/interpreter reachable from a request root stores to, updates a map of, or atomically modifies a field of the shared Interpreter / TypeChecker / ModuleResolver objects, defines or sets variables in Interpreter.globalEnv, or writes a package-level variable, unless a mutex of the owning object is held at that point")
 	roots := []string{"Interpreter.ExecuteRoute", "Interpreter.ExecuteCommand", "Interpreter.ExecuteEventHandler", "Interpreter.ExecuteQueueWorker"}
